@@ -102,6 +102,14 @@ func NewBatchSpanProcessor(exporter SpanExporter, options ...BatchSpanProcessorO
 	for _, opt := range options {
 		opt(&o)
 	}
+	// A negative size (from the environment or an option) cannot be used to
+	// allocate the queue or the batch: ignore it in favour of the default.
+	if o.MaxQueueSize < 0 {
+		o.MaxQueueSize = DefaultMaxQueueSize
+	}
+	if o.MaxExportBatchSize < 0 {
+		o.MaxExportBatchSize = min(DefaultMaxExportBatchSize, o.MaxQueueSize)
+	}
 	bsp := &batchSpanProcessor{
 		e:      exporter,
 		o:      o,
